@@ -9,8 +9,8 @@ use petgraph::visit::{EdgeRef, IntoEdgeReferences, IntoNodeReferences, NodeIndex
 use petgraph::{Directed, Direction, EdgeType, Undirected};
 use serde::{Deserialize, Serialize};
 
-pub trait Flip: EdgeType {
-    type Other: EdgeType + Flip<Other = Self>;
+pub trait Flip: EdgeType + 'static {
+    type Other: EdgeType + Flip<Other = Self> + 'static;
 }
 impl Flip for Directed {
     type Other = Undirected;
@@ -133,7 +133,7 @@ pub struct ObsPlan {
     pub pairs: Vec<(usize, usize)>,
 }
 
-pub trait AdjSut: Sized + Clone {
+pub trait AdjSut: Sized + Clone + 'static {
     type Flipped: AdjSut<Flipped = Self>;
     const STABLE: bool;
     fn create(cap: Option<(usize, usize)>, via_trait: bool) -> Self;
@@ -168,6 +168,9 @@ pub trait AdjSut: Sized + Clone {
     fn extend_with_edges(&mut self, edges: &[(usize, usize, u32)]);
     fn from_edges_replace(&mut self, edges: &[(usize, usize, u32)]);
     fn clone_replace(&mut self, clone_from: bool);
+    /// `dest.clone_from(self)` where dest is `prev` (or a small unrelated graph); self becomes
+    /// dest and the old self is returned
+    fn clone_from_stash(&mut self, prev: Option<Self>) -> Self;
     /// Graph -> StableGraph -> Graph, or StableGraph -> Graph -> StableGraph
     fn roundtrip_other(&mut self);
     /// rebuild through FromElements from own node_references / edge_references (index order)
@@ -421,6 +424,21 @@ macro_rules! common_methods {
         }
         fn from_edges_replace(&mut self, edges: &[(usize, usize, u32)]) {
             *self = Self::from_edges(edges.iter().map(|&(a, b, w)| (ni::<Ix>(a), ni::<Ix>(b), w)));
+        }
+        fn clone_from_stash(&mut self, prev: Option<Self>) -> Self {
+            let mut dest = prev.unwrap_or_else(|| {
+                let mut other = Self::with_capacity(0, 0);
+                let x = other.add_node(1);
+                let y = other.add_node(2);
+                let z = other.add_node(3);
+                other.add_edge(y, x, 4);
+                other.add_edge(z, z, 5);
+                other.add_edge(x, z, 6);
+                other.remove_node(y);
+                other
+            });
+            dest.clone_from(self);
+            std::mem::replace(self, dest)
         }
         fn clone_replace(&mut self, clone_from: bool) {
             if clone_from {
